@@ -213,11 +213,7 @@ def convert_legacy_task(
         new_args = []
         new: object
         for a in args:
-            if isinstance(a, dict):
-                new = Dict(a)
-            else:
-                new = convert_legacy_task(None, a, all_keys)
-            new_args.append(new)
+            new_args.append(convert_legacy_task(None, a, all_keys))
         return Task(key, func, *new_args)
     try:
         if isinstance(task, (int, float, str, tuple)):
@@ -230,6 +226,15 @@ def convert_legacy_task(
         # Unhashable
         pass
 
+    if isinstance(task, dict):
+        # Like the elements of a list, the values of a dict are part of the
+        # graph: get_dependencies looks into them, so they are converted too
+        parsed_dict = {k: convert_legacy_task(None, v, all_keys) for k, v in task.items()}
+        if any(isinstance(v, GraphNode) for v in parsed_dict.values()):
+            new_dict = Dict(parsed_dict)
+            new_dict.key = key
+            return new_dict
+        return cast(_T, parsed_dict)
     if isinstance(task, (list, tuple, set, frozenset)):
         if is_namedtuple_instance(task):
             return _wrap_namedtuple_task(
